@@ -21,7 +21,7 @@
 (* C17) and the logged values are compared with the machine (Conforms..).   *)
 EXTENDS Calculators
 
-CONSTANT Events   \* records [n, kind, route, ecalc, ocalc, ecell, ncl, emode, eorbit, ezref, eres, fs]
+CONSTANT Events   \* records [n, kind, route, ecalc, ocalc, ecell, ncl, emode, eorbit, ezref, erows, eres, fs]
                   \* (field names differ from the variables' names on purpose: SANY's
                   \* linter warns once per record literal otherwise)
 
@@ -43,7 +43,7 @@ TChoose ==
   /\ cell0' = IF E.kind = "convert" THEN E.ecell ELSE PerfectOf(E.ecell)
   /\ order0' = IF Trait[E.ecalc].groups THEN GroupPerm(SpeciesOf(E.ecell)) ELSE Identity(Len(E.ecell))
   /\ pc' = "order"
-  /\ UNCHANGED <<order, file, back, outp, result, resid, zr>>
+  /\ UNCHANGED <<order, file, back, outp, result, resid, zr, rowp>>
 
 (* kind "read": an input file of the format, emitted by the harness with the *)
 (* atoms in the given order, was read by the interface's reader: no writer  *)
@@ -59,6 +59,11 @@ TOrder ==
 TZeroRef ==
   ZeroRefWith([kind |-> E.ezref.kind, e |-> E.ezref.e,
                p |-> IF E.ezref.kind = "perm" THEN E.ezref.p ELSE order0])
+
+(* the row order of the displaced run's output that the harness really wrote *)
+(* (E.erows; <<>> = the order of the structure file)                        *)
+TCollect == CollectWith(IF E.erows = <<>> THEN Identity(Len(back)) ELSE E.erows)
+ERowsInOrder == E.erows = <<>> \/ E.erows = Identity(Len(E.erows)) \/ Trait[E.ecalc].ids
 
 (* "rt"/"read" events end after Read (pc = "displace"), "forces"/"convert"  *)
 (* events at pc = "done"; Judge then evaluates every Impl.. / Conforms..    *)
@@ -85,7 +90,7 @@ ImplFrame == (AtEndRT /\ Ok /\ Trait[E.ecalc].frame = "asis") => E.eres.frameOK
 ImplForcesNoError == AtEndFS => E.fs.status \in {"built", "refused"}
 ImplForcesPaired == (AtEndFS /\ Trait[E.ecalc].points) => ReqForcesPaired(E.ecell, E.fs)
 ImplForcesPairedSameOrder == (AtEndFS /\ Ok) => ReqForcesPairedSameOrder(E.ecell, E.eres.atoms, E.fs)
-ImplNotRefused == (AtEndFS /\ Ok /\ E.ezref.kind = "own") => ReqNotRefusedWhenSameOrder(E.ecell, E.eres.atoms, E.fs)
+ImplNotRefused == (AtEndFS /\ Ok /\ E.ezref.kind = "own" /\ ERowsInOrder) => ReqNotRefusedWhenSameOrder(E.ecell, E.eres.atoms, E.fs)
 (* --fz with positions in the output: built only if EVERY atom of the reference agrees, *)
 (* and phonopy's own reference is accepted                                              *)
 ImplZeroRef ==
@@ -110,6 +115,7 @@ TInvForcesPaired == InvForcesPaired
 TInvConvert == InvConvertCrystal /\ InvConvertible
 TInvSym == InvSymPaired
 TInvZeroRef == InvZeroRef
+TInvRows == InvRowOrderIrrelevant
 
 SameAtoms(a, b, withmom) ==
   /\ Len(a) = Len(b)
@@ -138,7 +144,7 @@ Judge ==
   /\ pc' = "judged"
   /\ UNCHANGED <<calc, cell, phase, order, file, back, outp, result, aux>>
 
-TNext == (TChoose \/ TOrder \/ Write \/ Read \/ Convert \/ Collect \/ TZeroRef \/ Agree \/ Judge) /\ UNCHANGED ev
+TNext == (TChoose \/ TOrder \/ Write \/ Read \/ Convert \/ TCollect \/ TZeroRef \/ Agree \/ Judge) /\ UNCHANGED ev
 
 TSpec == TInit /\ [][TNext]_tvars
 =============================================================================
